@@ -243,6 +243,10 @@ def check_invariant(cap, st, node, objv, rec, what):
             cap.fail(st, "inv", node, "%s: buffer points to released memory on return" % what)
             return
         cap.oblige(st, "inv", node, L, "%s: negative len" % what)
+        if inv.get("release_guard") == "size":
+            # the class's done() releases the buffer only when size is non-zero: a buffer held with size 0 is never released
+            cap.oblige(st, "relguard", node, Z - 1, "%s: a buffer is allocated but size is %s: done() releases the buffer only when size is "
+                       "non-zero, so this block is never freed" % (what, Z))
         cap.oblige(st, "inv", node, (Z - L - 1) if inv["strict"] else (Z - L),
                    "%s: reported size %s does not exceed len %s" % (what, Z, L) if inv["strict"] else "%s: size %s below len %s" % (what, Z, L))
         if r.cap is not None:
